@@ -433,7 +433,7 @@ RULE = ('one config = struct {named, tuple, unit} x type name {default, renamed,
         'or enum x enum-name {off, true, renamed} x per-variant {name default/renamed/false, named_field default/flipped, shape, field codes}; each config is rendered with alternate off and on through Formatter::new '
         'and compared byte-for-byte with an oracle impl written with debug_struct/debug_tuple/debug_map/write_str, plus a side-channel log proving for all field values that each value was formatted by its own formatter in order; '
         'configs without parameters are also compared with a #[derive(Debug)] twin. The variant is symbolic in both modes. Non-trivial = both harnesses passed and were reached.')
-BOUNDS = dict(max_fields='3 (structs), 2 (enum variants)', max_variants=3, buffer_bytes=128, log_events=8,
+BOUNDS = dict(max_fields='3 (structs), 2 (enum variants); plus runs of ignored fields (<= 4 fields) and three 13-field structs', max_variants=3, buffer_bytes=256, log_events=8,
               outside=['formatter flags other than #', 'non-ASCII names', 'field Debug output other than the tokens v<i>/Mm/p\\nq', 'outputs longer than 128 bytes'])
 ASSUME = ['Kani 0.68 / CBMC 6.11 / CaDiCaL; rustc nightly-2026-08-21 x86_64 dev profile; unstable Formatter::new used to bypass fmt::write',
           'STUB (pretty mode only): <CharSearcher as Searcher>::next_match replaced by an ASCII-needle byte loop over a mirror struct; validated in the same run by a native differential execution under the toolchain Kani pins (model vs real function on every string of length <= 7 over {a, b, \\n}); under Kani itself the real function does not terminate within 300 s even on concrete 2-byte strings, which is why it is stubbed',
